@@ -22,7 +22,7 @@ EXPLANATION = (
 ASSUMPTIONS = ["completion CPOs are noexcept (receiver contract)", "pika::detail::try_catch_exception_ptr(f, g) runs f and, if f throws, g with the exception",
                "pika::detail::visit calls exactly one operator() of the visitor"]
 THOROUGH_CONFIGS = [["-UNDEBUG", "-DPIKA_DEBUG"]]
-FLOORS = {"C03.R1": 45, "C03.R2": 5, "C03.R3": 6, "C03.R4": 18, "C03.R5": 6, "C03.R6": 6}
+FLOORS = {"C03.R1": 45, "C03.R2": 5, "C03.R3": 6, "C03.R4": 18, "C03.R5": 6, "C03.R6": 6, "C03.R7": 9}
 
 MEMBERS = ("set_value", "set_error", "set_stopped")
 CHANNEL_OK = {"set_value": {"value", "error", "connect", "protocol"}, "set_error": {"error", "protocol", "connect"}, "set_stopped": {"stopped", "protocol"}}
@@ -104,6 +104,8 @@ def run(rep, tier):
     rep.rule("C03.R3", "K3/K4: when_all(_vector): finish() once per member; completion only on the last decrement; error recorded only after winning the flag")
     rep.rule("C03.R4", "K1/K2/K4/K8: split/split_tuple/ensure_started: result stored before done; lock order; re-test under the lock; start once")
     rep.rule("C03.R5", "K2: operation state released/reset before the downstream completion that may destroy it")
+    rep.rule("C03.R7", "K6 (keep-alive across a self-destroying call): split/split_tuple/ensure_started receivers call shared_state::set_predecessor_done() - which resets the "
+             "predecessor operation state and thereby destroys the calling receiver - only through a local that was moved from *this, so that a reference to the shared state outlives the call")
     rep.rule("C03.R6", "K9: operation states immovable; completion members &&-qualified and noexcept")
 
     F = facts(rep, driver("c03_algos.cpp"), [r"^pika::\w+_detail::", r"^pika::when_all_impl::", r"^pika::execution::experimental::detail::"])
@@ -251,6 +253,23 @@ def run(rep, tier):
                         if use and precedes_on_all_paths(fn, lambda e: e.get("k") == "call" and callee_short(e) == "try_catch_exception_ptr", (done[0][0], done[0][1])):
                             g = [x for x in fn.lambdas() if x is not l]
                             stored = all(any(store(e) for _, _, e in x.all_events()) for x in g) if g else True
+            # R7 keep-alive: set_predecessor_done() resets the predecessor operation state - which destroys the very
+            # receiver that is calling it, and with it the reference to the shared state the receiver holds - and goes on
+            # using the shared state.  The caller therefore owns a reference of its own for the duration of the call:
+            # the call goes through a local that was moved/copied from *this, not through the receiver's member.
+            dr = strip(done[0][2].get("recv") or {})
+            base = dr
+            while isinstance(base, dict) and base.get("k") in ("mem", "call", "un") and (base.get("base") is not None or base.get("recv") is not None or base.get("e") is not None):
+                base = strip(base.get("base") if base.get("base") is not None else (base.get("recv") if base.get("recv") is not None else base.get("e")))
+            own = isinstance(base, dict) and base.get("k") == "var" and not base.get("param") and \
+                any(e.get("k") in ("decl", "ctor") and e.get("var") == base.get("name") and "*this" in T(e.get("init") if e.get("k") == "decl" else e) for _, _, e in fn.all_events())
+            if own:
+                rep.ok("C03.R7", fn, "%s calls set_predecessor_done() through the local '%s' that took over *this (own reference to the shared state)" % (short, base.get("name")))
+            else:
+                rep.bad("C03.R7", fn, loc_of(done[0][2]), "done-without-own-reference:" + short,
+                        "%s::%s calls set_predecessor_done() through %s: the call resets the predecessor operation state, which destroys this receiver and drops the reference it holds - "
+                        "if that was the last one (sender dropped, no consumer connected) the shared state is freed while set_predecessor_done is still running on it"
+                        % (recvname, short, T(dr)))
             if stored:
                 rep.ok("C03.R4", fn, "%s stores its alternative into v before set_predecessor_done()" % short)
             else:
